@@ -238,6 +238,11 @@ def kindInfo (k : String) : Option (Bool × String) :=
   else if k == "sendzc" then some (false, "SEND_ZC")
   else if k == "mread" then some (true, "READ_MULTISHOT")
   else if k == "maccept" then some (true, "ACCEPT")
+  else if k == "readv" then some (false, "READV")
+  else if k == "writev" then some (false, "WRITEV")
+  else if k == "sendto" then some (false, "SEND")
+  else if k == "sendmsgzc" then some (false, "SENDMSG_ZC")
+  else if k == "recvv" then some (false, "RECVMSG")
   else if k == "open" then some (false, "OPENAT")
   else if k == "accept" then some (false, "ACCEPT")
   else none
